@@ -63,7 +63,10 @@ def _mk_designer_classes():
       if 'lineage' not in md:
         raise serializable.HarmlessDecodeError('no lineage')
       # this fresh instance continues the dumped lineage
-      self.lineage = int(md['lineage'])
+      try:
+        self.lineage = int(md['lineage'])
+      except ValueError as e:
+        raise serializable.HarmlessDecodeError('unreadable designer state') from e
 
   class RecPlain(vza.Designer):
     """Not serializable: for DesignerPolicy (rebuilt from scratch on every request)."""
@@ -126,6 +129,8 @@ class RecBackend(svc.Backend):
 
 
 WIPE = ('UpdateMetadata', 's', ((None, ':designer_policy_v0:cache', 'incorporated_completed_trials_ids', 'not json'),))
+# only the designer's own state becomes unreadable (e.g. written by another version); the id cache stays valid
+WIPE_DESIGNER = ('UpdateMetadata', 's', ((None, ':designer_policy_v0:designer', 'lineage', 'written-by-another-version'),))
 
 
 def actions(sysm):
@@ -163,6 +168,7 @@ def actions(sysm):
   acts.append(('Restart',))
   if cfg['mode'] in ('rebuilt',) and cfg.get('wipe', True):
     acts.append(WIPE)
+    acts.append(WIPE_DESIGNER)
   return acts
 
 
